@@ -2,13 +2,13 @@ package main
 
 import (
 	"fmt"
-	"os"
-	"sync"
 	"go/constant"
 	"go/token"
 	"go/types"
+	"os"
 	"sort"
 	"strings"
+	"sync"
 	"time"
 
 	"golang.org/x/tools/go/ssa"
@@ -107,11 +107,11 @@ type Stats struct {
 }
 
 type Engine struct {
-	prog   *ssa.Program
-	pkg    *ssa.Package
-	ts     *TermStore
-	solver *Solver
-	alt    *Solver
+	prog    *ssa.Program
+	pkg     *ssa.Package
+	ts      *TermStore
+	solver  *Solver
+	alt     *Solver
 	altKind string
 	harness string
 
@@ -137,49 +137,49 @@ type Engine struct {
 	extGlobal map[string]*Cell
 
 	// per harness
-	pool        *WorkPool
-	unwind      int
-	maxSteps    int64
-	maxPaths    int
-	stats       Stats
-	violations  []Violation
-	qcache      map[string]Result
-	funcsSeen   map[*ssa.Function]bool
-	stubsUsed   map[string]int
-	validations []ValidationVec
-	wantValid   int
-	deadline    time.Time
+	pool         *WorkPool
+	unwind       int
+	maxSteps     int64
+	maxPaths     int
+	stats        Stats
+	violations   []Violation
+	qcache       map[string]Result
+	funcsSeen    map[*ssa.Function]bool
+	stubsUsed    map[string]int
+	validations  []ValidationVec
+	wantValid    int
+	deadline     time.Time
 	inconclusive []string
-	mergeInfo   map[*ssa.BasicBlock]*mergeRegion
-	pureFn      map[*ssa.Function]int
-	pdomCache   map[*ssa.Function]map[*ssa.BasicBlock]*ssa.BasicBlock
-	stopAtFirst bool
-	knownTags   map[string]bool // assertion messages that are known findings: do not stop, do not count
-	knownHit    map[string]*Violation
-	timeNow     *Term
-	nowSeq      int
-	stubOn      map[string]bool
-	rttSamples  int
-	crcMemo     map[string]*Term
-	crcApps     []crcApp
-	bitsSeq     int
-	model       *Model
-	pathVars    []*Term
-	crcSeq      int
-	rndSeq      int
-	debug       bool
+	mergeInfo    map[*ssa.BasicBlock]*mergeRegion
+	pureFn       map[*ssa.Function]int
+	pdomCache    map[*ssa.Function]map[*ssa.BasicBlock]*ssa.BasicBlock
+	stopAtFirst  bool
+	knownTags    map[string]bool // assertion messages that are known findings: do not stop, do not count
+	knownHit     map[string]*Violation
+	timeNow      *Term
+	nowSeq       int
+	stubOn       map[string]bool
+	rttSamples   int
+	crcMemo      map[string]*Term
+	crcApps      []crcApp
+	bitsSeq      int
+	model        *Model
+	pathVars     []*Term
+	crcSeq       int
+	rndSeq       int
+	debug        bool
 }
 
 type ghostState struct {
-	locked   int // mutex: 1 if write-held
-	readers  int
-	onceDone bool
-	signals  int
+	locked     int // mutex: 1 if write-held
+	readers    int
+	onceDone   bool
+	signals    int
 	timerArmed bool
-	timerDur *Term
-	timerFn  FuncV
-	closedCh bool
-	resets   int
+	timerDur   *Term
+	timerFn    FuncV
+	closedCh   bool
+	resets     int
 }
 
 func (e *Engine) fail(format string, args ...interface{}) {
